@@ -621,10 +621,16 @@ func walk(r *simkit.Run, prop string) {
 					if prop == "C01" {
 						if ok, e2 := retryOnEmpty(ctx, w, obs, changes, indent); !ok {
 							sig := "plan-fails-on-empty-tables"
-							if strings.Contains(aerr.Error(), "table `new_") && strings.Contains(aerr.Error(), "already exists") {
+							// Classified by the error that remains on empty tables (the first error may be a
+							// legitimate data-dependent one that merely comes earlier in the plan).
+							deciding := aerr.Error()
+							if e2 != nil {
+								deciding = e2.Error()
+							}
+							if strings.Contains(deciding, "table `new_") && strings.Contains(deciding, "already exists") {
 								sig = "temp-table-name-collision"
 							}
-							if strings.Contains(aerr.Error(), "no such index") {
+							if strings.Contains(deciding, "no such index") {
 								sig = "drop-of-constraint-backed-index"
 							}
 							r.Fail(prop, "plan-executable", sig, "step %d: the planned statements fail even with all rows removed: %v (first error: %v); changes [%s]; plan:\n%s", step, e2, aerr, changeKinds(changes), planText(plan))
